@@ -1,6 +1,8 @@
 package main
 
 import (
+	"encoding/json"
+	"path/filepath"
 	"fmt"
 	"os"
 	"strings"
@@ -269,6 +271,9 @@ func analyzeLoops(fn *ssa.Function) *loopInfo {
 func (ex *Exec) newFrame(fn *ssa.Function, top bool) *Frame {
 	fr := &Frame{ex: ex, fn: fn, regs: map[ssa.Value]Val{}, isTop: top, direct: map[*ssa.Alloc]bool{}}
 	fr.loops = analyzeLoops(fn)
+	if top {
+		remapLoops(fn, fr.loops)
+	}
 	for _, b := range fn.Blocks {
 		for _, ins := range b.Instrs {
 			if a, ok := ins.(*ssa.Alloc); ok {
@@ -1301,4 +1306,82 @@ func (ex *Exec) zeroArray(st *State, ref Term, et types.Type) {
 		return
 	}
 	ex.cx.unsup("make of slice of %s", et)
+}
+
+// loopSigs: one signature per loop of fn, in ordinal order: the named locals assigned in the
+// loop body, and whether it is a range loop.
+func loopSigs(fn *ssa.Function, li *loopInfo) []string {
+	n := len(li.heads)
+	sigs := make([]string, n+1)
+	for h, ord := range li.heads {
+		names := map[string]bool{}
+		rng := false
+		for b := range li.body[h] {
+			for _, ins := range b.Instrs {
+				switch x := ins.(type) {
+				case *ssa.Store:
+					if a, ok := x.Addr.(*ssa.Alloc); ok && a.Comment != "" {
+						names[a.Comment] = true
+					}
+				case *ssa.Next:
+					rng = true
+				}
+			}
+		}
+		var l []string
+		for k := range names {
+			l = append(l, k)
+		}
+		sort.Strings(l)
+		s := strings.Join(l, ",")
+		if rng {
+			s += "|range"
+		}
+		if ord >= 1 && ord <= n {
+			sigs[ord] = s
+		}
+	}
+	return sigs[1:]
+}
+
+var baselineLoops map[string][]string
+var baselineLoopsLoaded bool
+
+// remapLoops: the `loop N` clauses of a contract are keyed by the ordinal the loop had in the
+// reference tree. When the number of loops of the function changed (a loop moved into a helper,
+// a loop added), the loops are matched with the reference loops by signature; a loop without a
+// match gets an ordinal no clause refers to (its invariant is `true`). With the same number of
+// loops the ordinals are kept as they are.
+func remapLoops(fn *ssa.Function, li *loopInfo) {
+	if !baselineLoopsLoaded {
+		baselineLoopsLoaded = true
+		if b, err := os.ReadFile(filepath.Join(verifDir(), "baseline", "loops.json")); err == nil {
+			json.Unmarshal(b, &baselineLoops)
+		}
+	}
+	ref, ok := baselineLoops[fn.String()]
+	if !ok || len(ref) == len(li.heads) {
+		return
+	}
+	cur := loopSigs(fn, li)
+	taken := map[int]bool{}
+	mapping := map[int]int{} // current ordinal -> reference ordinal
+	for ci, cs := range cur {
+		for ri, rs := range ref {
+			if !taken[ri] && rs == cs {
+				taken[ri] = true
+				mapping[ci+1] = ri + 1
+				break
+			}
+		}
+	}
+	next := 1000
+	for h, ord := range li.heads {
+		if m, ok := mapping[ord]; ok {
+			li.heads[h] = m
+		} else {
+			next++
+			li.heads[h] = next
+		}
+	}
 }
